@@ -45,7 +45,13 @@ try:
     run = "^(" + "|".join(mt) + ")$"
 
     def demo_run():
-        p = subprocess.run(["go", "test", "-mod=mod", "-vet=off", "-count=1", "-run", run, "./" + demo_dir], cwd=wt, env=env, capture_output=True, text=True, timeout=1200)
+        # File-list mode: the package's own *_test.go files do not compile (no generated mocks).
+        d = os.path.join(wt, demo_dir)
+        files = sorted(f for f in os.listdir(d) if f.endswith(".go") and not f.endswith("_test.go"))
+        if re.search(r"^package \w+_test\s*$", text, re.M):
+            files = []  # external test package: uses the exported API only
+        cmd = ["go", "test", "-mod=mod", "-vet=off", "-count=1", "-run", run] + files + ["zz_seed_demo_test.go"]
+        p = subprocess.run(cmd, cwd=d, env=env, capture_output=True, text=True, timeout=1200)
         return p.returncode, (p.stdout + p.stderr)[-1500:]
 
     rc, out = demo_run()
@@ -57,10 +63,11 @@ try:
     if a.returncode != 0:
         rec["apply_error"] = a.stderr[-500:]
         raise SystemExit(0)
-    b = subprocess.run(["go", "build", "./..."], cwd=wt, env=env, capture_output=True, text=True)
+    b = subprocess.run(["go", "build", "./pkg/...", "./cmd/bb_scheduler", "./cmd/bb_worker", "./cmd/bb_runner"], cwd=wt, env=env, capture_output=True, text=True)
     rec["builds"] = b.returncode == 0
     rc, out = demo_run()
-    rec["demo_with_patch_fails"] = rc != 0
+    rec["demo_with_patch_fails"] = rc != 0 and "build failed" not in out and "cannot find" not in out
+    rec["demo_with_patch_output"] = out[-600:]
     os.remove(demo_dst)
     t = subprocess.run(["go", "test", "-mod=mod", "-vet=off", "-count=1", "-timeout", "25m", "./..."], cwd=wt, env=env, capture_output=True, text=True)
     fails = [l for l in t.stdout.splitlines() if l.startswith("FAIL") or l.startswith("--- FAIL")]
